@@ -134,6 +134,8 @@ def build_items(m, items, sync, ctr=None, drop=frozenset(), kept=None):
                     continue
             if kept is not None:
                 kept.append(t)
+                if ctr is not None and hasattr(kept, "ids"):
+                    kept.ids.append(ctr[0] - 1)
             m.d[sync if dom == "sync" else "comb"] += t.eq(rhs)
         elif it[0] == "if":
             _, branches, els = it
@@ -346,7 +348,10 @@ def gen_design(rng, hist, *, instances=True, memories=True, iobufs=True, layouts
     mem_obs = []
     has_dup_tf = [False]
     leaf_ctr = [0]
-    kept_targets = []
+    class _Kept(list):
+        pass
+    kept_targets = _Kept()
+    kept_targets.ids = []
 
     # -- modules -------------------------------------------------------------------------------------
     for rank, mi in enumerate(order):
@@ -502,6 +507,8 @@ def gen_design(rng, hist, *, instances=True, memories=True, iobufs=True, layouts
     b.top = mods[0]
     b.n_inst, b.n_mem = n_inst, n_mem
     b.has_f9 = any(f9_shaped(t) for t in kept_targets)
+    # the leaves (numbered as `drop` numbers them) whose target has the shape of finding F9
+    b.f9_leaves = [i for t, i in zip(kept_targets, kept_targets.ids) if f9_shaped(t)] if len(kept_targets.ids) == len(kept_targets) else None
     b.has_f25 = any(f25_shaped(t) for t in kept_targets)
     b.n_leaves = leaf_ctr[0]
 
